@@ -867,3 +867,44 @@ def rule_group_config(ctx, rep):
         except PyRaise as e:
             got = f"rejected ({e.exc})"
         rep.check(got.startswith("rejected"), rule, f"invalid configuration rejected: {name}", where, got, "rejected")
+
+
+def rule_absolute_index_access(ctx, rep):
+    rule = "T-ABSIDX"
+    rep.rule(rule, "group-size-check report condition: a block 'reads another transaction by absolute index' exactly when it contains gtxn / gtxna / "
+                   "gtxnas, or gtxns / gtxnsa / gtxnsas whose transaction index is an integer constant (int, pushint, intc)")
+    w = ctx.world
+    d = path_detectors(ctx)["group-size-check"]
+    cls = d["cls"]
+    c, st = cls.find("_accessed_using_absolute_index")
+    rep.require(st is not None, "group-size-check helper not found")
+    f = w.getattr(cls, "_accessed_using_absolute_index")
+    where = f"{ctx.path(c.mod.name)}:{st.lineno}"
+    from ..absobj import Graph
+    rows = {
+        "gtxn 1 Amount": (["gtxn 1 Amount", "pop"], True), "gtxna 0 ApplicationArgs 1": (["gtxna 0 ApplicationArgs 1", "pop"], True),
+        "gtxnas 2 ApplicationArgs": (["int 0", "gtxnas 2 ApplicationArgs", "pop"], True),
+        "int 1; gtxns": (["int 1", "gtxns Amount", "pop"], True), "pushint 3; gtxns": (["pushint 3", "gtxns Amount", "pop"], True),
+        "intc_0; gtxns": (["intc_0", "gtxns Amount", "pop"], True), "int 1; gtxnsa": (["int 1", "gtxnsa ApplicationArgs 0", "pop"], True),
+        "int 1; int 0; gtxnsas": (["int 1", "int 0", "gtxnsas ApplicationArgs", "pop"], True),
+        "GroupIndex; gtxns": (["txn GroupIndex", "gtxns Amount", "pop"], False), "GroupIndex-1; gtxns": (["txn GroupIndex", "int 1", "-", "gtxns Amount", "pop"], False),
+        "load; gtxns": (["load 0", "gtxns Amount", "pop"], False), "unknown; gtxns": (["gtxns Amount", "pop"], False),
+        "GroupIndex; int 0; gtxnsas": (["txn GroupIndex", "int 0", "gtxnsas ApplicationArgs", "pop"], False),
+        "txn only": (["txn Amount", "pop"], False), "txna": (["txna ApplicationArgs 0", "pop"], False), "itxn": (["itxn Amount", "pop"], False),
+        "relative then absolute": (["txn GroupIndex", "gtxns Amount", "pop", "gtxn 0 Amount", "pop"], True),
+        "unknown then constant": (["gtxns Amount", "pop", "int 2", "gtxns Amount", "pop"], True),
+    }
+    for name, (lines, want) in rows.items():
+        g = Graph(ctx)
+        bb = g.block("X", lines)
+        try:
+            got = w.call(f, bb)
+        except PyRaise as e:
+            got = f"RAISES {e.exc} {e.where}"
+        rep.check(got is want, rule, name, where, got, want, why="the report condition of group-size-check does not recognise (or over-recognises) absolute-index reads",
+                  sample={"block": lines, "absolute index read": want})
+    # the report condition is an 'any block of the path' test
+    rc = d["report"]
+    rep.require(rc is not None, "group-size-check passes no report condition")
+    has_any = any(isinstance(n, ast.For) for n in ast.walk(rc)) and any(isinstance(n, ast.Return) and isinstance(n.value, ast.Constant) and n.value.value is True for n in ast.walk(rc))
+    rep.check(has_any, rule, "report condition quantifies over the blocks of the path", f"{ctx.path(d['mod'].name)}:{rc.lineno}", ast.unparse(rc)[:120], "for block in path: if uses absolute index: return True")
